@@ -172,7 +172,7 @@ static void forward(LEG *g, int dir)
 		g->idx++;
 		int hit = (dir == sc.dirn && g->idx == sc.idx);
 		static uint8_t rec[80000]; memcpy(rec, g->buf, rl);
-		int hs = (rec[0] == 22 && rl > 5) ? rec[5] : -1;
+		int hs = (rec[0] == 22 && rl > 5) ? rec[5] : -1; int rtype0 = rec[0]; // as sent (before any fault)
 		const char *applied = "none"; size_t outl = rl; int drop = 0, dup = 0, hold = 0, inj = 0;
 		uint8_t injrec[20000]; size_t injlen = 0;
 		if (g->idx == 1) { memcpy(g->first, rec, rl); g->firstlen = rl; }
@@ -195,7 +195,7 @@ static void forward(LEG *g, int dir)
 				}
 			} else applied = "none";
 		}
-		vt_begin("Rec"); vt_str("dir", dir ? "s2c" : "c2s"); vt_int("idx", g->idx); vt_int("rtype", rec[0]); vt_int("hs", hs);
+		vt_begin("Rec"); vt_str("dir", dir ? "s2c" : "c2s"); vt_int("idx", g->idx); vt_int("rtype", rtype0); vt_int("hs", hs);
 		vt_int("len", (long)rl); vt_str("fault", applied); if (inj) vt_int("kind", sc.off); vt_end();
 		if (inj) wr(g->out, injrec, injlen);
 		if (hold) { memcpy(g->held, rec, rl); g->heldlen = rl; }
